@@ -21,7 +21,6 @@ func (e *Engine) prepareGoal(hyp, goal *Term) []*Term {
 	return e.prepareGoalMode(hyp, goal, false)
 }
 
-
 // prepareGoalMode with dropQ replaces each positive universally quantified
 // hypothesis by its instances only (a weakening of the hypotheses: "unsat"
 // is still a proof, "sat" only yields a candidate counterexample).
@@ -151,7 +150,13 @@ func (e *Engine) prepareGoalMode2(hyp, goal *Term, dropQ bool, strict bool) []*T
 			}
 		}
 		walk(g2)
+		var candsK []*Term // constants asked for by the contract (instconsts)
 		for _, h := range e.instHints {
+			if h.IsConst() && h.Sort == Int && !seen[h] {
+				seen[h] = true
+				candsK = append(candsK, h)
+				continue
+			}
 			add(h)
 		}
 		sort.SliceStable(cands, func(i, j int) bool { return Size(cands[i]) < Size(cands[j]) })
@@ -177,6 +182,7 @@ func (e *Engine) prepareGoalMode2(hyp, goal *Term, dropQ bool, strict bool) []*T
 		insts = append(insts, candsS...)
 		insts = append(insts, candsA...)
 		insts = append(insts, cands2...)
+		insts = append(insts, candsK...)
 	}
 	base := len(sks) * 3
 	if os.Getenv("GOVC_DEBUGINST") != "" {
